@@ -72,6 +72,10 @@ func vnRenderJS(out []byte, list []vnS, names []byte) []byte {
 			out = append(append(append(out, '('), id(s.params[0])...), "=>{"...)
 			out = vnRenderJS(out, s.body, names)
 			out = append(out, "});"...)
+		case "arrow0": // a bare arrow as the right-hand side of an assignment: z=x=>{body};
+			out = append(append(append(out, "z="...), id(s.params[0])...), "=>{"...)
+			out = vnRenderJS(out, s.body, names)
+			out = append(out, "};"...)
 		case "class":
 			out = append(append(append(out, "class "...), id(s.site)...), "{}"...)
 		case "block":
@@ -285,7 +289,7 @@ func (r *vnResolver) scope(sc *vnScope, list []vnS) {
 			r.scopeBody(inner[i], s.body)
 		case "func":
 			r.function(sc, s)
-		case "arrow", "arrow1":
+		case "arrow", "arrow1", "arrow0":
 			r.function(sc, s)
 		case "fexpr":
 			ns := &vnScope{parent: sc}
@@ -339,7 +343,7 @@ func (r *vnResolver) scopeBody(sc *vnScope, list []vnS) {
 				}
 			}
 			r.scopeBody(inner[i], s.body)
-		case "func", "arrow", "arrow1":
+		case "func", "arrow", "arrow1", "arrow0":
 			r.function(sc, s)
 		case "fexpr":
 			ns := &vnScope{parent: sc}
@@ -393,6 +397,8 @@ var vnSkeletons = []struct {
 	{5, []vnS{vnD("let", 0), {k: "sblock", site: 1, body: []vnS{vnD("var", 2), vnU(3)}}, vnU(4)}},                                   // 29: var in a class static block
 	{5, []vnS{vnD("var", 0), {k: "pmeth", site: -1, body: []vnS{{k: "ause", site: 1}, {k: "ouse", site: 2}, vnBlk(vnS{k: "ause", site: 3})}}, vnU(4)}}, // 30: literals inside a method inside a parenthesised object literal
 	{5, []vnS{vnD("var", 0), vnBlk(vnU(1)), {k: "arrow1", site: -1, params: []int{2}, body: []vnS{vnU(3)}}, vnU(4)}},              // 31: x => body where x is known from a sibling block
+	{5, []vnS{vnD("var", 0), vnBlk(vnU(1)), {k: "arrow0", site: -1, params: []int{2}, body: []vnS{vnU(3)}}, vnU(4)}},              // 32: z = x => body (not parenthesised), x known before
+	{4, []vnS{vnU(0), {k: "arrow0", site: -1, params: []int{1}, body: []vnS{vnU(2)}}, vnU(3)}},                                     // 33: the same with a name that was only used before
 }
 
 // VerifScope: all identifier occurrences that denote the same binding share one Var;
